@@ -49,6 +49,8 @@ def fixed_cases(tier):
     out = _prog.fixed_cases(tier)
     out += [{"src": s, "mode": "exec", "optimize": 0, "min_version": 7, "exec": True, "_label": "exec_fixed"} for s in EXEC_FIXED]
     # the jump-width cascade family, symbolically and executed
+    for s in gen_source.many_cells_sources():
+        out.append({"src": s, "mode": "exec", "optimize": 0, "min_version": 7, "exec": True, "_label": "many_cells_exec"})
     for i, s in enumerate(gen_source.jump_cascade_sources()):
         out.append({"src": s, "mode": "exec", "optimize": 0, "min_version": 7, "_label": "jump_cascade"})
         if i % 2 == 0:
